@@ -207,13 +207,14 @@ def compile_harness(name, sources, libs=(), flavour=None, extra=(), cxx=False, o
     if os.path.exists(exe):
         return exe
     for e in os.listdir(d):
-        if e.startswith(name + "-"):
+        if e.startswith(name + "-") and ".tmp" not in e:
             try:
                 os.unlink(os.path.join(d, e))
             except OSError:
                 pass
     cc = "g++" if cxx else "gcc"
-    cmd = [cc, "-O1", "-g", "-D" + GUARD, "-w"] + list(extra) + inc_flags() + list(sources) + ["-o", exe]
+    tmp_exe = "%s.tmp%d" % (exe, os.getpid())     # concurrent callers: compile to a private name, then rename atomically
+    cmd = [cc, "-O1", "-g", "-D" + GUARD, "-w"] + list(extra) + inc_flags() + list(sources) + ["-o", tmp_exe]
     if libs:
         bd = ensure_lib(flavour or "rel")
         for l in libs:
@@ -221,9 +222,13 @@ def compile_harness(name, sources, libs=(), flavour=None, extra=(), cxx=False, o
         if (flavour or "rel") == "asan":
             cmd += ["-fsanitize=address,undefined"]
     cmd += ["-lpthread", "-lm"]
-    rc, out = sh(cmd)
-    if rc != 0:
-        raise BuildError("harness %s failed to compile:\n%s" % (name, out[-6000:]))
+    with FileLock("harness-" + name):
+        if os.path.exists(exe):
+            return exe
+        rc, out = sh(cmd)
+        if rc != 0:
+            raise BuildError("harness %s failed to compile:\n%s" % (name, out[-6000:]))
+        os.rename(tmp_exe, exe)
     return exe
 
 
